@@ -1,6 +1,6 @@
 (* C03: no shared mutable state in the source; with per-call state, histories
    and interleavings cannot matter; map iteration order cannot matter. *)
-From Tabula Require Import model.C03_Interference gen.GenGlobals.
+From Tabula Require Import model.C03_Interference gen.GenGlobals gen.GenMapOrder.
 From Coq Require Import Permutation Lia.
 From Coq Require String.
 Import (notations) String.
@@ -15,6 +15,28 @@ Proof. reflexivity. Qed.
 (* the one package-level value that methods are called on is the table detector
    registry, written only by the exported RegisterDetector *)
 Theorem only_the_detector_registry_has_methods_called : globals_with_method_calls = ["tables.globalRegistry"%string].
+Proof. reflexivity. Qed.
+
+(* package-level maps, slices and pointers handed on as a whole (whoever holds
+   the value can write the shared storage): only the named-encoding tables,
+   returned by font.GetEncoding and read by their holders *)
+Theorem shared_tables_that_leave_their_package_variable :
+  aliased_globals = ["font.MacRomanEncoding (returned)"; "font.PDFDocEncoding (returned)";
+                     "font.StandardEncodingTable (returned)"; "font.SymbolEncoding (returned)";
+                     "font.WinAnsiEncoding (returned)"; "font.ZapfDingbatsEncoding (returned)"]%string.
+Proof. reflexivity. Qed.
+
+(* every loop over a Go map (iteration order is random per loop) that appends to
+   a slice which the function does not sort afterwards, builds a string, or
+   leaves at the first entry met.  None of the listed ones is on an extraction
+   path with more than one candidate entry: debug printing (Dict.String, Keys),
+   the detector registry listing, image listing, an error leaving a resolve
+   loop, and the EPUB manifest searched for its single NCX / nav item *)
+Theorem places_where_map_order_can_show :
+  map_order_sinks = ["core.Dict.Keys: append keys"; "core.Dict.String: append parts";
+                     "epubdoc.Reader.findNCX: early return"; "epubdoc.Reader.findNavDocument: early return";
+                     "reader.Reader.ExtractPageImages: append images"; "reader.Reader.ResolveDeep: early return";
+                     "resolver.ObjectResolver.resolve: early return"; "tables.DetectorRegistry.List: append names"]%string.
 Proof. reflexivity. Qed.
 
 Section Interleaving.
